@@ -77,6 +77,12 @@ inline const std::map<std::string, std::string> &poolTexts()
         {"parseerr",
          "<?xml version=\"1.0\" encoding=\"UTF-8\"?>\n<model xmlns=\"" NS20 "\" name=\"pe\" colour=\"red\">\n"
          "  <component name=\"c\"><variable name=\"a\" units=\"dimensionless\" flavour=\"x\"/><thing/></component>\n</model>\n"},
+        // two connected components (interfaces, mapping): sensitive to being read under CellML 1.x rules
+        {"conn",
+         "<?xml version=\"1.0\" encoding=\"UTF-8\"?>\n<model xmlns=\"" NS20 "\" name=\"conn\">\n"
+         "  <component name=\"a\"><variable name=\"x\" units=\"metre\" interface=\"public\" initial_value=\"1\"/></component>\n"
+         "  <component name=\"b\"><variable name=\"x\" units=\"metre\" interface=\"public\"/></component>\n"
+         "  <connection component_1=\"a\" component_2=\"b\" id=\"cid\"><map_variables variable_1=\"x\" variable_2=\"x\" id=\"mid\"/></connection>\n</model>\n"},
         {"under",
          "<?xml version=\"1.0\" encoding=\"UTF-8\"?>\n<model xmlns=\"" NS20 "\" name=\"under\">\n"
          "  <component name=\"c\"><variable name=\"a\" units=\"dimensionless\"/><variable name=\"b\" units=\"dimensionless\"/>"
